@@ -300,17 +300,19 @@ class _Benign(ast.NodeTransformer):
 
 
 def _drop_unread_handler_names(tree):
-    """`except X as e:` -> `except X:` when no code of the enclosing top-level function / class / module reads or
-    writes a variable `e` outside handlers that bind it themselves, and this handler does not use it either."""
-    def region(scope):
-        handlers = [h for h in ast.walk(scope) if isinstance(h, ast.ExceptHandler) and h.name]
+    """`except X as e:` -> `except X:` when no code of the enclosing top-level function / class (for module-level code:
+    of the whole file) reads or writes a variable `e` outside handlers that bind it themselves, and this handler does not
+    use it either.  (`as e` unbinds `e` when the handler ends, so another variable `e` in scope keeps the name pinned.)"""
+    def region(scope, handlers):
+        handlers = [h for h in handlers if h.name]
         if not handlers:
             return
         inside = {}
-        for h in handlers:
-            for n in ast.walk(h):
-                if isinstance(n, ast.Name) and n.id == h.name:
-                    inside.setdefault(h.name, set()).add(id(n))
+        for h in ast.walk(scope):
+            if isinstance(h, ast.ExceptHandler) and h.name:
+                for n in ast.walk(h):
+                    if isinstance(n, ast.Name) and n.id == h.name:
+                        inside.setdefault(h.name, set()).add(id(n))
         outside = set()
         for n in ast.walk(scope):
             if isinstance(n, ast.Name) and id(n) not in inside.get(n.id, ()):
@@ -319,14 +321,24 @@ def _drop_unread_handler_names(tree):
                 outside.update(n.names)
             elif isinstance(n, ast.arg):
                 outside.add(n.arg)
+            elif isinstance(n, ast.alias):
+                outside.add((n.asname or n.name).split('.')[0])
+            elif isinstance(n, (ast.FunctionDef, ast.AsyncFunctionDef, ast.ClassDef)):
+                outside.add(n.name)
         for h in handlers:
             if h.name not in outside and not any(isinstance(n, ast.Name) and n.id == h.name for n in ast.walk(h)):
                 h.name = None
+
+    def handlers_of(node):
+        return [h for h in ast.walk(node) if isinstance(h, ast.ExceptHandler)]
+    defs = (ast.FunctionDef, ast.AsyncFunctionDef, ast.ClassDef)
     if isinstance(tree, ast.Module):
         for st in tree.body:
-            region(st)
+            if isinstance(st, defs):
+                region(st, handlers_of(st))
+        region(tree, [h for st in tree.body if not isinstance(st, defs) for h in handlers_of(st)])
     else:
-        region(tree)
+        region(tree, handlers_of(tree))
 
 
 NORMALISE = os.environ.get('VERIF_TRANSLATE_RAW') != '1'
